@@ -69,11 +69,17 @@ def strategy_(draw, tier):
             "top": draw(st.sampled_from(["absent", "sticky", "nonsticky"])),
             "top2": draw(st.sampled_from(["absent", "sticky"])),
             "uid": draw(st.sampled_from([1000, 0])),
+            # /vol/.Trash-$uid is a symlink to a directory of the same volume (a relocated trash folder):
+            # trash-put uses it, so the readers must see it too
+            "alt_link": draw(st.integers(0, 5)) == 0,
             "homevol": draw(st.booleans())}
 
 
 def strategy(tier):
     return strategy_(tier)
+
+
+STORE = "/vol/.trash-store"
 
 
 def disk_bag(snap, uid):
@@ -89,6 +95,8 @@ def disk_bag(snap, uid):
             base = td[:-len("/.Trash-%d" % uid)] or "/"
         elif td.endswith("/.Trash/%d" % uid):
             base = td[:-len("/.Trash/%d" % uid)] or "/"
+        elif td == STORE:
+            base = "/vol"
         ents = oracle.scan_trash(snap, td, sandbox.read_bytes)
         for nm, e in ents.items():
             if e["info"] is None or e["path"] is None:
@@ -109,6 +117,9 @@ def run_case(case):
     nodes = [{"p": d, "t": "d"} for d in DIRS if d != "/"]
     nodes += gen.topdir_nodes("/vol", uid, case["top"], "absent")
     nodes += gen.topdir_nodes("/vol2", uid, case["top2"], "absent")
+    if case.get("alt_link"):
+        nodes += [{"p": STORE, "t": "d", "m": 0o700},
+                  {"p": "/vol/.Trash-%d" % uid, "t": "l", "to": ".trash-store"}]
     spec = {"vols": vols, "nodes": nodes, "env": {"HOME": "/home/u"}, "uid": uid, "cwd": "/"}
     sandbox.build_world(spec)
     clock = [86400 * 366]
